@@ -8,19 +8,16 @@ static helpers inlined and values cached in locals resolved (h08.normalise); anc
 (the indirect call through iv_event.handler, list primitives applied to iv_state.events_pending /
 iv_event.list, the wake-up primitives), never names of static functions or of variables.
 """
+import re
+
 from ..core import (AnalysisBroken, canon, strip, strip_load, last_member, lvalue_steps, norm_cond, walk, forward, root_var)
 from ..analyses import (is_call, holding, atoms_imply, path_to, describe, exits_of, callback_kind,
                         locksets, held, lock_effect, force_edges, prune_infeasible)
 from .c11 import null_rule
 from . import h08
-from .h08 import PENDING, LINK
+from .h08 import K
 from .. import roles
 
-EVL = 'iv_state.event_list_mutex'
-EVL_KEY = ('iv_state', 'event_list_mutex')
-KICK = ('iv_state', 'events_kick')
-LOCAL = ('iv_state', 'events_local')
-OWNER = ('iv_event', 'owner')
 ADD = ('iv_list_add', 'iv_list_add_tail')
 UNLINK = ('iv_list_del', 'iv_list_del_init')
 WAKE = ('iv_task_register', 'iv_event_raw_post')
@@ -41,6 +38,7 @@ def run(ctx):
                        'local task / kick raw event (cookie = that state), the wrapper that runs the calling thread\'s state, or a poll '
                        'slot that saw this thread\'s own kick token', floor=4)
     ctx.rule('R-C08g', 'NULL-CONTRADICTION in iv_event.c', floor=0)
+    derive_keys(ctx.prog)
     ctx.section(post)
     ctx.section(runner)
     ctx.section(who_runs)
@@ -48,6 +46,42 @@ def run(ctx):
 
 def pt(e):
     return (e['_b'], e['_i'])
+
+
+def derive_keys(prog):
+    """The fields of the per-thread state the rules speak about.  While the library still has the fields under
+    today's names they are used as they are.  When one of them is gone (renamed, or the event fields were grouped
+    into a sub-structure) all four are identified by what the exported poster does with them: the list head the
+    posted event's own link (public iv_event.list) is added to; the one mutex member it locks; the raw event it
+    posts; the task it registers."""
+    def has(key):
+        r = prog.records.get(key[0]) or {}
+        return any(fl.get('name') == key[1] for fl in r.get('fields', []))
+    K.set(**K.DEFAULTS)
+    if all(has(k) for k in K.DEFAULTS.values()):
+        return
+    f = prog.fn('iv_event_post')                      # exported API
+    g = h08.inline(prog, f, stop=lambda t: t.name in WAKE + ('iv_task_registered',))
+
+    def mkey(x):
+        m = h08.member_of(x)
+        return (m.get('record'), m['field']) if m is not None else None
+    found = {'PENDING': set(), 'EVL_KEY': set(), 'KICK': set(), 'LOCAL': set()}
+    for e in g.events():
+        if e['ev'] != 'call' or not e.get('args'):
+            continue
+        if is_call(e, ADD) and len(e['args']) == 2 and mkey(e['args'][0]) == K.LINK:
+            found['PENDING'].add(mkey(e['args'][1]))
+        elif lock_effect(e):
+            found['EVL_KEY'].add(mkey(e['args'][0]))
+        elif is_call(e, 'iv_event_raw_post'):
+            found['KICK'].add(mkey(e['args'][0]))
+        elif is_call(e, 'iv_task_register'):
+            found['LOCAL'].add(mkey(e['args'][0]))
+    bad = sorted(k for k, v in found.items() if len(v) != 1 or None in v)
+    if bad:
+        raise AnalysisBroken('state fields of the iv_event machinery renamed and not identifiable by role in iv_event_post: %s' % ', '.join(bad))
+    K.set(**{k: next(iter(v)) for k, v in found.items()})
 
 
 class Acc:
@@ -87,7 +121,7 @@ def post(ctx):
     if P in h08.written_vars(g):
         raise AnalysisBroken('iv_event_post: the event parameter is reassigned')
     for e in g.events():
-        if e['ev'] == 'store' and OWNER in lvalue_steps(e['lhs']):
+        if e['ev'] == 'store' and K.OWNER in lvalue_steps(e['lhs']):
             raise AnalysisBroken('iv_event_post writes iv_event.owner')
     acc = Acc()
 
@@ -98,7 +132,7 @@ def post(ctx):
 
     def owner_direct(x):
         m = strip(x)
-        return isinstance(m, dict) and m.get('k') == 'member' and (m.get('record'), m['field']) == OWNER and posted_event(m['base'])
+        return isinstance(m, dict) and m.get('k') == 'member' and (m.get('record'), m['field']) == K.OWNER and posted_event(m['base'])
 
     def owner_gen(x, S):
         return h08.in_class(x, S, owner_direct)
@@ -137,44 +171,44 @@ def post(ctx):
 
     # since the last lock operation on the list mutex, the emptiness of the pending list was read (with the mutex held)
     def tr_tested(e, s):
-        if any(lid == EVL for (_, lid) in lock_effect(e)):
+        if any(lid == K.EVL for (_, lid) in lock_effect(e)):
             return False
         if id(e) in testids:
-            return EVL in held(ls.get(pt(e)))
+            return K.EVL in held(ls.get(pt(e)))
         return s
     _, tested = forward(g, False, tr_tested, lambda a, b: a and b)
     def region(e):
-        return frozenset(x for x in (ls.get(pt(e)) or ()) if x[0] == EVL)
+        return frozenset(x for x in (ls.get(pt(e)) or ()) if x[0] == K.EVL)
     # ... and the emptiness is never sampled in a critical section other than one that performs the add
     tests_locked = all(region(t) and any(region(t) == region(a) for a in adds) for t in tests)
     for a in adds:
-        ok = EVL in held(ls.get(pt(a))) and bool(tested.get(pt(a))) and tests_locked
+        ok = K.EVL in held(ls.get(pt(a))) and bool(tested.get(pt(a))) and tests_locked
         acc.add('R-C08a', 'iv_event_post:test-then-add-one-region', a['loc'], ok,
                 'the emptiness of the pending list is read before the add, inside the same acquisition of the owner\'s '
                 'event_list_mutex; no such read happens without the mutex or in another critical section', f.q, None if ok else path_to(g, a))
         # ... and it is the owner's list the event is queued on
-        ev_ok = posted_event(h08.container_ptr(a['args'][0], LINK) or {})
-        head_ok = owner_at(h08.container_ptr(a['args'][1], PENDING), a)
+        ev_ok = posted_event(h08.container_ptr(a['args'][0], K.LINK) or {})
+        head_ok = owner_at(h08.container_ptr(a['args'][1], K.PENDING), a)
         acc.add('R-C08a', 'iv_event_post:queued-on-owners-list', a['loc'], ev_ok and head_ok,
                 'the posted event\'s own link is added to the pending list of the state its owner field designates: %s' % describe(a), f.q)
     for t in tests:
         x = t['args'][0] if t['ev'] == 'call' else _head_of(strip_load(t['e']))
-        acc.add('R-C08a', 'iv_event_post:tests-owners-list', t['loc'], owner_at(h08.container_ptr(x, PENDING), t),
+        acc.add('R-C08a', 'iv_event_post:tests-owners-list', t['loc'], owner_at(h08.container_ptr(x, K.PENDING), t),
                 'the pending list whose emptiness decides the kick is the owner\'s: %s' % describe(t), f.q)
     for e in g.events():
-        if e['ev'] == 'call' and any(lid == EVL for (_, lid) in lock_effect(e)):
-            acc.add('R-C08a', 'iv_event_post:region-of-owners-mutex', e['loc'], owner_at(h08.container_ptr(e['args'][0], EVL_KEY), e),
+        if e['ev'] == 'call' and any(lid == K.EVL for (_, lid) in lock_effect(e)):
+            acc.add('R-C08a', 'iv_event_post:region-of-owners-mutex', e['loc'], owner_at(h08.container_ptr(e['args'][0], K.EVL_KEY), e),
                     'the list mutex taken/released is the owner\'s: %s' % describe(e), f.q)
 
     # force the "was empty" edge and require a wake-up on every remaining path.  The outcome of the test may
     # also sit in a plain local (`was_empty = iv_list_empty(&dst->events_pending)`): the class of variables
     # holding the result of an emptiness test of the pending list / of the event's own link
-    def result_of(callee, key):
+    def result_of(gx, callee, key):
         def direct(x):
             c = strip(x)
             return isinstance(c, dict) and c.get('k') == 'call' and c.get('callee') == callee and c.get('args') \
                 and last_member(h08.member_of(c['args'][0])) == key
-        sets = h08.value_sets(g, lambda x, S: h08.in_class(x, S, direct))
+        sets = h08.value_sets(gx, lambda x, S: h08.in_class(x, S, direct))
 
         def truth(at, blk):
             """'true' / 'false' when the atom (taken at the end of blk) says the call returned non-zero / zero"""
@@ -185,17 +219,24 @@ def post(ctx):
                 return 'true' if op == '!=' else 'false'
             return None
         return truth
-    pending_empty = result_of('iv_list_empty', PENDING)
-    unqueued = result_of('iv_list_empty', LINK)
-    task_registered = result_of('iv_task_registered', LOCAL)
+    # (the classes are must-facts: recomputed on the forced graph until no further edge falls, so that a path that
+    # was cut -- event already queued, flag left at its initial 0 -- does not blur the class at a join)
+    gf = g
+    for _ in range(6):
+        pending_empty = result_of(gf, 'iv_list_empty', K.PENDING)
+        unqueued = result_of(gf, 'iv_list_empty', K.LINK)
 
-    def keep(blk, si, atoms):
-        for at in atoms:
-            if pending_empty(at, blk) == 'false' or unqueued(at, blk) == 'false':
-                return False       # pending list not empty: no kick owed; event already queued: nothing added
-        return None
-    gf = force_edges(g, keep)
-    prune_infeasible(gf)
+        def keep(blk, si, atoms):
+            for at in atoms:
+                if pending_empty(at, blk) == 'false' or unqueued(at, blk) == 'false':
+                    return False       # pending list not empty: no kick owed; event already queued: nothing added
+            return None
+        before = sum(len(b.succ) for b in gf.blocks.values())
+        gf = force_edges(gf, keep)
+        prune_infeasible(gf)
+        if sum(len(b.succ) for b in gf.blocks.values()) == before:
+            break
+    task_registered = result_of(gf, 'iv_task_registered', K.LOCAL)
 
     def send_site(e):
         return e['ev'] == 'call' and callback_kind(e) == ('method', 'event_send')
@@ -225,9 +266,15 @@ def post(ctx):
     modes = _raw_mode_flags(prog)
     hd = holding(g, user_call_kills=False)
 
-    def in_mode(e, op):
+    from ..core import NEG
+
+    def in_mode(e, positive):
+        """the registration condition (a conjunction of atoms over the mode variables) holds / is refuted here"""
         A = hd.get(pt(e), frozenset())
-        return any(atoms_imply(A, op, m, '0') for m in modes)
+        if positive:
+            return all(atoms_imply(A, op, m, c) for (op, m, c) in modes)
+        return any(atoms_imply(A, NEG[op], m, c) for (op, m, c) in modes)
+    cond_txt = ' && '.join('%s %s %s' % (m, op, c) for (op, m, c) in sorted(modes))
     kinds = set()
     for e in g.events():
         if not woke(e):
@@ -236,13 +283,13 @@ def post(ctx):
         if is_call(e, 'iv_event_raw_post') or send_site(e):
             raw = is_call(e, 'iv_event_raw_post')
             acc.add('R-C08a', 'iv_event_post:transport-matches-registration:%s' % ('raw' if raw else 'send'), e['loc'],
-                    in_mode(e, '!=' if raw else '=='),
-                    'the %s is used only where %s %s 0, the condition under which iv_event_register %s the owner\'s kick raw event'
-                    % ('raw-event post' if raw else 'poll-method send', '/'.join(sorted(modes)), '!=' if raw else '==',
+                    in_mode(e, raw),
+                    'the %s is used only where %s %s, the condition under which iv_event_register %s the owner\'s kick raw event'
+                    % ('raw-event post' if raw else 'poll-method send', cond_txt, 'holds' if raw else 'does not hold',
                        'registers' if raw else 'does not register'), f.q)
         if is_call(e, 'iv_event_raw_post'):
             kinds.add('raw event')
-            acc.add('R-C08a', 'iv_event_post:raw-post-targets-owner', e['loc'], owner_at(h08.container_ptr(a0, KICK), e),
+            acc.add('R-C08a', 'iv_event_post:raw-post-targets-owner', e['loc'], owner_at(h08.container_ptr(a0, K.KICK), e),
                     'the raw event posted is the kick of the owner, not the poster\'s (%s)' % canon(a0), f.q)
         elif send_site(e):
             kinds.add('method send')
@@ -250,10 +297,10 @@ def post(ctx):
                     'method->event_send(%s) is given the owner' % canon(a0), f.q)
         else:
             kinds.add('local task')
-            acc.add('R-C08a', 'iv_event_post:local-task-is-owners', e['loc'], owner_at(h08.container_ptr(a0, LOCAL), e),
+            acc.add('R-C08a', 'iv_event_post:local-task-is-owners', e['loc'], owner_at(h08.container_ptr(a0, K.LOCAL), e),
                     'the local task registered (in the calling thread) is the owner\'s, i.e. on the edge poster == owner (%s)' % canon(a0), f.q)
         acc.add('R-C08a', 'iv_event_post:wake-outside-list-lock:%s' % (e.get('callee') or 'event_send'), e['loc'],
-                EVL not in held(ls.get(pt(e))), 'the wake-up is issued without the owner\'s list mutex held', f.q)
+                K.EVL not in held(ls.get(pt(e))), 'the wake-up is issued without the owner\'s list mutex held', f.q)
     acc.emit(ctx)
     # each transport arm is present
     ctx.ob('R-C08a', 'iv_event_post:three-transports', kinds == {'local task', 'raw event', 'method send'}, loc=f.loc,
@@ -261,23 +308,34 @@ def post(ctx):
 
 
 def _raw_mode_flags(prog):
-    """The global(s) whose being non-zero is the condition under which iv_event_register registers the owner's
-    kick raw event (the transport selector the poster has to agree with)."""
+    """The condition on file-scope mode variables (atoms `v != 0`, `v == c`, ...; plain globals or members of a
+    file-scope struct) under which iv_event_register registers the owner's kick raw event: the transport selector
+    the poster has to agree with."""
     f = prog.fn('iv_event_register')                  # exported API
     g = h08.inline(prog, f, stop=lambda t: t.name == 'iv_event_raw_register')
     sites = [e for e in g.events() if e['ev'] == 'call' and is_call(e, 'iv_event_raw_register') and e.get('args')
-             and last_member(h08.member_of(e['args'][0])) == KICK]
+             and last_member(h08.member_of(e['args'][0])) == K.KICK]
     if not sites:
         raise AnalysisBroken('iv_event_register: registration of the kick raw event not found')
-    shared = {x['name'] for e in g.events() for x in walk(e) if x.get('k') == 'var' and x.get('vk') in ('global', 'staticlocal')}
-    for blk in g.blocks.values():
-        if blk.term and blk.term.get('cond') is not None:
-            shared |= {x['name'] for x in walk(blk.term['cond']) if x.get('k') == 'var' and x.get('vk') in ('global', 'staticlocal')}
+    shared = h08.global_paths(g)
     hd = holding(g, user_call_kills=False)
     modes = None
     for e in sites:
-        here = {a[1] for a in hd.get(pt(e), frozenset()) if a[0] == '!=' and a[2] == '0' and a[1] in shared}
+        here = {(a[0], a[1], a[2]) for a in hd.get(pt(e), frozenset())
+                if a[0] in ('==', '!=') and a[2].lstrip('-').isdigit() and a[1] in shared}
         modes = here if modes is None else (modes & here)
+    # the selector is a variable the registration itself decides (assigns); other globals that happen to be
+    # tested on the way are not part of the condition
+    tested = set()
+    for blk in g.blocks.values():
+        if blk.term and blk.term.get('cond') is not None and len(blk.succ) == 2:
+            for pol in (True, False):
+                tested |= {(op, lc, rc) for (op, lc, rc, l, r) in norm_cond(blk.term['cond'], pol)}
+    if modes:
+        modes = {m for m in modes if m in tested}       # what the code branches on, not what a store happens to imply
+    written = {canon(e['lhs']) for e in g.events() if e['ev'] == 'store'} & shared
+    if modes and any(m[1] in written for m in modes):
+        modes = {m for m in modes if m[1] in written}
     if not modes:
         raise AnalysisBroken('iv_event_register: no mode flag governs the registration of the kick raw event')
     return modes
@@ -330,7 +388,7 @@ def runner(ctx):
             else:
                 inst = 'runner:list-access-under-lock'
                 detail = '%s (%s) happens with the owner\'s mutex held' % (what, cls)
-            ok = EVL in held(ls.get(pt(e)))
+            ok = K.EVL in held(ls.get(pt(e)))
             acc.add('R-C08b', inst, e['loc'], ok, detail, root.q, None if ok else path_to(g, e))
         for cs in sites:
             acc.add('R-C08b', 'runner:handler-without-lock', cs['loc'], not held(ls.get(pt(cs))),
@@ -343,56 +401,135 @@ def runner(ctx):
     null_rule(ctx, 'R-C08g', ('iv_event.c',))
 
 
+def _ident(x):
+    """spellings that designate the event an expression refers to, as object pointer or as pointer to its link
+    (container_of and &E->list are bijections between the two): &O->list is O, container_of(p, iv_event, list) is p"""
+    y = strip(x)
+    if isinstance(y, dict) and y.get('k') == 'container_of' and (y.get('record'), y.get('member')) == K.LINK:
+        return _ident(y['e'])
+    o = h08.container_ptr(x, K.LINK)
+    if o is not None:
+        return _ident(o)
+    return frozenset(h08.spellings(x))
+
+
+def _designates_event(x):
+    """the value is (derived from) a pointer to an iv_event or to a list link"""
+    y = strip(x)
+    if not isinstance(y, dict):
+        return False
+    if y.get('k') == 'container_of':
+        return (y.get('record'), y.get('member')) == K.LINK
+    if h08.container_ptr(x, K.LINK) is not None:
+        return True
+    return y.get('k') == 'member' and y.get('record') == 'iv_list_head' and y.get('field') in ('next', 'prev')
+
+
+_IDENT = re.compile(r'[A-Za-z_$][A-Za-z0-9_$@~]*')
+
+
 def _unlinked_before(g, cs, ls):
-    """Since the last definition of the object whose handler is called -- and since the last handler
-    call -- the object's link was removed from its list under the list mutex.  Independent of the loop
-    form.  The object may be designated as &obj->list or by the list pointer it was derived from
-    (obj = container_of(p, iv_event, list); iv_list_del_init(p))."""
+    """Since the last handler call the event whose handler is called was taken off its list and its link
+    re-initialised (iv_list_del_init, or iv_list_del followed by INIT_IV_LIST_HEAD) under the list mutex.
+    Independent of the loop form and of the order in which the object pointer and the unlink are written:
+    every variable that designates an event -- as object pointer or as pointer to its link, derived with
+    container_of / &E->list, copied, or read from a neighbour's link -- carries the status of that event
+    (D queued / X unlinked but poisoned / U unlinked) and the names under which the same event is known;
+    names that are link reads (`batch.next`) are forgotten when a list is changed."""
     fe = strip(cs['fnexpr'])
     objx = fe['base']
     obj = canon(objx)
-    rv = root_var(objx)
-    rootname = rv['name'] if rv is not None else None
 
-    def tr(e, s):
-        if e['ev'] == 'store' and rootname is not None and h08.var_name(e['lhs']) == rootname:
-            r = strip(e.get('rhs')) if 'rhs' in e else None
-            al = frozenset()
-            if isinstance(r, dict) and r.get('k') == 'container_of' and (r.get('record'), r.get('member')) == LINK:
-                al = frozenset(h08.spellings(r['e']))
-            return ('D', al)
-        if e['ev'] == 'decl' and e['name'] == rootname:
-            return None
-        if e['ev'] == 'call' and is_call(e, UNLINK + ('INIT_IV_LIST_HEAD',)) and e.get('args') and s is not None:
-            a = e['args'][0]
-            o = h08.container_ptr(a, LINK)
-            hit = (o is not None and h08.same(o, objx)) or (isinstance(s, tuple) and bool(h08.spellings(a) & s[1]))
-            if hit:
-                locked = EVL in held(ls.get(pt(e)))
-                if is_call(e, 'iv_list_del_init'):
-                    return 'U' if locked else ('D', frozenset())
-                if is_call(e, 'iv_list_del'):
-                    # taken off the list, but the link is poisoned: reads as queued until it is re-initialised
-                    return ('X', s[1] if isinstance(s, tuple) else frozenset()) if locked else ('D', frozenset())
-                if isinstance(s, tuple) and s[0] == 'X':
-                    return 'U' if locked else ('D', frozenset())
-                return s
-        if e['ev'] == 'call' and (e.get('callee') in h08.LIST_WRITERS or 'fnexpr' in e) and isinstance(s, tuple):
-            s = (s[0], frozenset())         # the list changed: the pointer the object was derived from may designate another node
-        if h08.is_event_site(e):
-            return None                     # the handler ran: the event may be queued again
-        return s
+    def cell(lhs):
+        """a plain variable, or a member selected with `.` from a local aggregate (`b.cur`): a place that only
+        stores naming it change"""
+        n = h08.var_name(lhs)
+        if n is not None:
+            return n
+        m = strip(lhs)
+        while isinstance(m, dict) and m.get('k') == 'member' and not m.get('arrow'):
+            m = strip_load(m['base'])
+        if isinstance(m, dict) and m.get('k') == 'var' and m.get('vk') in ('local', 'param') and strip(lhs).get('k') == 'member':
+            return canon(lhs)
+        return None
+
+    def mentions(i, v):
+        return re.search(r'(?<![\w$@~.>])' + re.escape(v) + r'(?![\w$@~])', i) is not None
+
+    def forget_var(st, v):
+        out = {}
+        for w, (status, ids) in st.items():
+            if w == v or mentions(w, v):
+                continue
+            out[w] = (status, frozenset(i for i in ids if not mentions(i, v)))
+        return out
+
+    def forget_links(st):
+        return {w: (status, frozenset(i for i in ids if _IDENT.fullmatch(i) or i in st)) for w, (status, ids) in st.items()}
+
+    def tr(e, st):
+        ev = e['ev']
+        if ev == 'store':
+            v = cell(e['lhs'])
+            if v is not None:
+                rhs = e.get('rhs') if e.get('op') == '=' else None
+                ids = _ident(rhs) - {v} if rhs is not None else frozenset()
+                src = [w for w in st if w != v and (w in ids or (ids & st[w][1]))]
+                track = rhs is not None and (_designates_event(rhs) or bool(src))
+                status = 'D'
+                if src:
+                    ss = {st[w][0] for w in src}
+                    status = 'D' if 'D' in ss else ('X' if 'X' in ss else 'U')
+                st = forget_var(st, v)
+                if track:
+                    for w in src:
+                        if w in st:
+                            st[w] = (st[w][0], st[w][1] | {v})
+                    st[v] = (status, frozenset(i for i in ids if not mentions(i, v)))
+                return st
+            return st
+        if ev == 'decl':
+            return forget_var(st, e['name']) if e['name'] in st else st
+        if ev == 'call':
+            if h08.is_event_site(e):
+                return {}                   # the handler ran: every event may be queued again
+            if is_call(e, UNLINK + ('INIT_IV_LIST_HEAD',)) and e.get('args'):
+                ids = _ident(e['args'][0])
+                locked = K.EVL in held(ls.get(pt(e)))
+                out = {}
+                for w, (status, wi) in st.items():
+                    if w in ids or (ids & wi):
+                        if is_call(e, 'iv_list_del_init'):
+                            status = 'U' if locked else 'D'
+                        elif is_call(e, 'iv_list_del'):
+                            # taken off the list, but the link is poisoned: reads as queued until it is re-initialised
+                            status = 'X' if locked else 'D'
+                        elif status == 'X':
+                            status = 'U' if locked else 'D'
+                    out[w] = (status, wi)
+                return forget_links(out)
+            if e.get('callee') in h08.LIST_WRITERS or 'fnexpr' in e:
+                st = forget_links(st)
+            for a in e.get('args', []):
+                a = strip(a)
+                if isinstance(a, dict) and a.get('k') == 'addr' and h08.var_name(a['e']) in st:
+                    st = forget_var(st, h08.var_name(a['e']))
+            return st
+        return st
 
     def join(a, b):
-        if a == b:
-            return a
-        if a is None or b is None:
-            return None
-        if isinstance(a, tuple) and isinstance(b, tuple):
-            return ('D' if 'D' in (a[0], b[0]) else 'X', a[1] & b[1])
-        return a if isinstance(a, tuple) else b
-    _, ev_in = forward(g, None, tr, join)
-    return ev_in.get(pt(cs)) == 'U', obj
+        out = {}
+        for w in a:
+            if w in b:
+                sa, sb = a[w][0], b[w][0]
+                status = sa if sa == sb else ('D' if 'D' in (sa, sb) else 'X')
+                out[w] = (status, a[w][1] & b[w][1])
+        return out
+    _, ev_in = forward(g, {}, tr, join)
+    st = ev_in.get(pt(cs)) or {}
+    ids = _ident(objx)
+    hit = [w for w in st if w in ids or (ids & st[w][1])]
+    return bool(hit) and all(st[w][0] == 'U' for w in hit), obj
 
 
 # --------------------------------------------------------------------------
@@ -436,21 +573,43 @@ def who_runs(ctx):
     # 3. the state whose events are run: the cookie (handler roots) or the calling thread's own state
     for root, g, sites in ctxs:
         for d in _detaches(g):
-            X = h08.container_ptr(d['args'][0], PENDING)
+            X = h08.container_ptr(d['args'][0], K.PENDING)
             rv = root_var(X) if X is not None else None
             origin = 'unknown'
-            if rv is not None:
+            if rv is not None and rv.get('vk') in ('local', 'param'):
+                # (a file-scope variable keeps its value across calls and threads: of unknown origin)
+                # every value the variable may hold: the root's own (never written) parameter, or iv_get_state()
                 name = rv['name']
+                wr = h08.written_vars(g)
+                params = {p['name'] for p in root.params} - wr
                 defs = [e for e in g.events() if e['ev'] == 'store' and h08.var_name(e['lhs']) == name]
-                if not defs and name in {p['name'] for p in root.params}:
-                    origin = 'cookie'
-                elif defs and all('rhs' in e and _is_own_state(e['rhs']) for e in defs):
+                kinds_ = set()
+                handed = set()
+                if not defs:
+                    kinds_.add('cookie' if name in params else 'unknown')
+                    handed.add(name)
+                for e in defs:
+                    r = e.get('rhs') if e.get('op') == '=' else None
+                    if r is not None and _is_own_state(r):
+                        kinds_.add('own')
+                    elif r is not None and h08.var_name(r) in params and name not in {p['name'] for p in root.params}:
+                        kinds_.add('cookie')
+                        handed.add(h08.var_name(r))
+                    else:
+                        kinds_.add('unknown')
+                origin = 'unknown' if 'unknown' in kinds_ else ('cookie' if 'cookie' in kinds_ else 'own')
+                if origin == 'cookie' and kind.get(root.q) in ('poll slot', 'wrapper') \
+                        and all(_param_is_own(prog, root, pn, polls, taken) for pn in handed):
+                    # not a cookie: a state pointer handed down, unchanged, by callers that all obtained it
+                    # from iv_get_state() (struct iv_state is private to the library: every caller is in view)
                     origin = 'own'
             ok = origin == 'own' or (origin == 'cookie' and kind.get(root.q) == 'handler')
             acc.add('R-C08d', 'runner:runs-state-of:%s' % root.name, d['loc'], ok,
                     'entered through %s the runner detaches the pending list of %s: %s' % (
                         root.name, canon(X) if X is not None else '?',
-                        {'own': 'the calling thread\'s state (iv_get_state())', 'cookie': 'the cookie its handler was installed with',
+                        {'own': 'the calling thread\'s state (iv_get_state())',
+                         'cookie': 'the cookie its handler was installed with (or, where the code says so, iv_get_state())'
+                         if kind.get(root.q) == 'handler' else 'a parameter that not every caller fills with iv_get_state()',
                          'unknown': 'a state of unknown origin'}[origin]), root.q)
 
     # 4. poll slots: the handler call is reached only over an edge on which a token the kernel reported
@@ -479,16 +638,13 @@ def who_runs(ctx):
             rv = root_var(x)
             return rv is not None and rv['name'] in arrays
 
-        def edge(blk, si, s):
-            if blk.term and blk.term.get('cond') is not None and len(blk.succ) == 2 \
-                    and blk.term.get('cls') not in ('SwitchStmt', 'MethodDispatch'):
-                for (op, lc, rc, l, r) in norm_cond(blk.term['cond'], si == 0):
-                    if op == '==' and ((is_state(l) and is_token(r)) or (is_state(r) and is_token(l))):
-                        return True
-            return s
-        _, ev_in = forward(g, False, lambda ev, s: s, lambda a, b: a and b, edge=edge)
+        def token_test(c, pol=True):
+            """the condition, taken with this polarity, says that a reported token is this thread's state"""
+            return any(op == '==' and ((is_state(l) and is_token(r)) or (is_state(r) and is_token(l)))
+                       for (op, lc, rc, l, r) in norm_cond(c, pol) if isinstance(l, dict) and isinstance(r, dict))
+        ev_in = _seen_or_const(g, token_test)
         for cs in sites:
-            ok = bool(ev_in.get(pt(cs)))
+            ok = ev_in.get(pt(cs)) is True
             acc.add('R-C08d', '%s:own-kick-token' % root.name, root.loc, ok,
                     'pending events are run only if a batch entry carried this thread\'s own state pointer as token', root.q,
                     None if ok else path_to(g, cs))
@@ -502,6 +658,141 @@ def who_runs(ctx):
         ctx.ob('R-C08d', 'kick-consumer:%s' % t.replace('iv_fd_poll_method_', ''), pf is not None and kind.get(pf.q) == 'poll slot',
                loc=pf.loc if pf is not None else None,
                detail='the poll slot of a method with an event_send slot runs the pending events', fn=pf.q if pf is not None else None)
+
+
+def _param_is_own(prog, f, pname, polls, taken, depth=0):
+    """Parameter pname (a struct iv_state *) of f always carries the calling thread's own state: f is only
+    entered by direct calls (or, for a poll slot, through method->poll) and every call passes either
+    iv_get_state() -- directly or through a local that holds nothing else -- or the caller's own parameter for
+    which the same holds."""
+    idx = [i for i, p in enumerate(f.params) if p['name'] == pname and p.get('record') == 'iv_state']
+    if not idx or depth > 4:
+        return False
+    idx = idx[0]
+    sites = []
+    if f.q in polls:
+        for c in prog.all_funcs():
+            sites += [(c, e) for e in c.events() if e['ev'] == 'call' and callback_kind(e) == ('method', 'poll')]
+    elif f.q in taken:
+        return False
+    sites += [(c, e) for (c, e) in prog.callers_of(f.name) if prog.resolve(prog.unit_of(c), f.name) is f]
+    if not sites:
+        return False
+    for (c, e) in sites:
+        if len(e.get('args', [])) <= idx:
+            return False
+        a = e['args'][idx]
+        if _is_own_state(a):
+            continue
+        v = h08.var_name(a)
+        if v is None:
+            # a cached read the core propagated: judge by the local it was cached in
+            v = strip(a).get('_was') if isinstance(strip(a), dict) else None
+            if v is None:
+                return False
+        if v in h08.written_vars(c) or any(e2['ev'] == 'store' and h08.var_name(e2['lhs']) == v for e2 in c.events()):
+            defs = [e2 for e2 in c.events() if e2['ev'] == 'store' and h08.var_name(e2['lhs']) == v]
+            addr = any(isinstance(strip(x), dict) and strip(x).get('k') == 'addr' and h08.var_name(strip(x)['e']) == v
+                       for e2 in c.events() if e2['ev'] == 'call' for x in e2.get('args', []))
+            if addr or not defs or not all(d.get('op') == '=' and 'rhs' in d and _is_own_state(d['rhs']) for d in defs):
+                return False
+        elif not _param_is_own(prog, c, v, polls, taken, depth + 1):
+            return False
+    return True
+
+
+_CMP = {'==': lambda a, b: a == b, '!=': lambda a, b: a != b, '<': lambda a, b: a < b, '>': lambda a, b: a > b,
+        '<=': lambda a, b: a <= b, '>=': lambda a, b: a >= b}
+
+
+def _seen_or_const(g, witness):
+    """Forward analysis of the invariant  SEEN or (v == c for every v -> c in Z), SEEN being `a branch condition
+    or a stored comparison for which witness(cond, polarity) holds was true on the way`.  The state is True (SEEN on
+    every path) or the dict Z.  A plain local v enters Z at `v = <constant>` (or a copy of a variable in Z); a store
+    to v of a value that differs from its constant only when the witness comparison holds (`v = A == B`,
+    `v |= A == B`, `v += A == B`) keeps the invariant; any other store removes v.  An edge whose condition
+    contradicts v == c can only be taken when SEEN: the state becomes True.  This is what a flag, a counter or an
+    inverted flag that records the kick looks like, whether or not flag partitioning resolved it."""
+    addr_taken = {h08.var_name(x['e']) for e in g.events() for x in walk(e) if x.get('k') == 'addr'} - {None}
+
+    def const_of(x, Z):
+        x = strip(x)
+        if not isinstance(x, dict):
+            return None
+        if x.get('k') == 'int':
+            return x['v']
+        if x.get('k') == 'null':
+            return 0
+        n = h08.var_name(x)
+        if n is not None and n in Z:
+            return Z[n]
+        return None
+
+    def witness_value(x):
+        """x is 1 when the witness comparison holds, else 0"""
+        x = strip(x)
+        while isinstance(x, dict) and x.get('k') == 'un' and x.get('op') == '!' and isinstance(strip(x['e']), dict) \
+                and strip(x['e']).get('k') == 'un' and strip(x['e']).get('op') == '!':
+            x = strip(strip(x['e'])['e'])
+        if isinstance(x, dict) and x.get('k') == 'cond':
+            a, b = strip(x['a']), strip(x['b'])
+            if isinstance(b, dict) and b.get('k') == 'int' and b['v'] == 0 and witness(x['c'], True):
+                return True         # C ? n : 0
+            if isinstance(a, dict) and a.get('k') == 'int' and a['v'] == 0 and witness(x['c'], False):
+                return True         # C ? 0 : n
+            return False
+        return isinstance(x, dict) and x.get('k') == 'bin' and x.get('op') == '==' and witness(x, True)
+
+    def tr(e, Z):
+        if Z is True:
+            return Z
+        if e['ev'] == 'store':
+            v = h08.var_name(e['lhs'])
+            if v is None:
+                return Z
+            l = strip(e['lhs'])
+            rhs = e.get('rhs')
+            if l.get('vk') in ('local', 'param') and v not in addr_taken and rhs is not None:
+                op = e.get('op')
+                if op == '=':
+                    c = const_of(rhs, Z)
+                    if c is not None:
+                        return dict(Z, **{v: c})
+                    if witness_value(rhs):
+                        return dict(Z, **{v: 0})
+                elif v in Z and op in ('|=', '+=') and Z[v] == 0 and (witness_value(rhs) or const_of(rhs, Z) == 0):
+                    return Z
+                elif v in Z and op in ('&=', '*=') and Z[v] == 0:
+                    return Z
+            if v in Z:
+                Z = {w: c for w, c in Z.items() if w != v}
+            return Z
+        if e['ev'] == 'decl' and e.get('name') in Z:
+            return {w: c for w, c in Z.items() if w != e['name']}
+        return Z
+
+    def edge(blk, si, Z):
+        if Z is True:
+            return Z
+        if blk.term and blk.term.get('cond') is not None and len(blk.succ) == 2 \
+                and blk.term.get('cls') not in ('SwitchStmt', 'MethodDispatch'):
+            if witness(blk.term['cond'], si == 0):
+                return True
+            for (op, lc, rc, l, r) in norm_cond(blk.term['cond'], si == 0):
+                if op in _CMP and isinstance(l, dict) and h08.var_name(l) in Z:
+                    k = const_of(r, Z) if isinstance(r, dict) else (int(rc) if rc.lstrip('-').isdigit() else None)
+                    if k is not None and not _CMP[op](Z[h08.var_name(l)], k):
+                        return True         # v == c contradicts the condition: only SEEN remains
+        return Z
+
+    def join(a, b):
+        if a is True:
+            return b
+        if b is True:
+            return a
+        return {w: c for w, c in a.items() if b.get(w) == c}
+    _, ev_in = forward(g, {}, tr, join, edge=edge)
+    return ev_in
 
 
 def _installations(prog, r, acc):
@@ -528,13 +819,13 @@ def _installations(prog, r, acc):
             lhs = strip(e['lhs'])
             sub = strip(lhs['base']) if lhs.get('k') == 'member' and not lhs['arrow'] else None
             key = (sub.get('record'), sub['field']) if isinstance(sub, dict) and sub.get('k') == 'member' else None
-            ok = lhs.get('k') == 'member' and lhs['field'] == 'handler' and key in (LOCAL, KICK)
+            ok = lhs.get('k') == 'member' and lhs['field'] == 'handler' and key in (K.LOCAL, K.KICK)
             ninst.add(e['loc'])
             acc.add('R-C08d', 'runner:installed-as', e['loc'], ok,
                     'the runner is installed as handler of a state\'s events_local task / events_kick raw event only: %s' % describe(e), root.q)
             if not ok:
                 continue
-            state = sub['base'] if sub['arrow'] else {'k': 'addr', 'e': sub['base']}
+            state = h08.object_ptr(sub)
             cks = [x for x in g.events() if x['ev'] == 'store' and strip(x['lhs']).get('k') == 'member' and strip(x['lhs'])['field'] == 'cookie'
                    and not strip(x['lhs'])['arrow'] and canon(strip(x['lhs'])['base']) == canon(sub)]
             okc = bool(cks) and all('rhs' in x and h08.same(x['rhs'], state) for x in cks)
